@@ -147,6 +147,46 @@ func clientResend(r *h.Run, idx int) {
 		r.Inconclusive("Close of the first client did not return")
 		return
 	}
+	// what is still recorded, in the order of first transmission, is read from the
+	// session's own log now that the first client is closed (an acknowledgement
+	// or PUBREC may have been processed up to the last moment)
+	{
+		kind := map[string]string{}
+		var order []string
+		for _, e := range srv.Log.Events() {
+			if e.Who != "session" {
+				continue
+			}
+			switch e.Kind {
+			case "sess:save:out":
+				pid, _ := packet.GetID(e.Pkt)
+				k := fmt.Sprint(pid)
+				if _, seen := kind[k]; !seen {
+					order = append(order, k)
+				}
+				if _, isRel := e.Pkt.(*packet.Pubrel); isRel {
+					kind[k] = "PUBREL"
+				} else {
+					kind[k] = "PUBLISH"
+				}
+			case "sess:delete:out":
+				k := strings.TrimSpace(e.Note)
+				if _, seen := kind[k]; seen {
+					delete(kind, k)
+					for i, o := range order {
+						if o == k {
+							order = append(order[:i], order[i+1:]...)
+							break
+						}
+					}
+				}
+			}
+		}
+		original = nil
+		for _, k := range order {
+			original = append(original, fmt.Sprintf("%s(%s)", kind[k], k))
+		}
+	}
 	c2 := client.New()
 	c2.Session = sess
 	cf2, err := c2.Connect(ch.Config(srv, "c15-client", false))
